@@ -1319,6 +1319,7 @@ int QSexact_verify (
 )
 {
    int rval = 0;
+   QSbasis* dbl_basis = 0;   /* basis of the double solve, owned here */
 
    //assert(basis);
    //assert(basis->nstruct);
@@ -1363,7 +1364,7 @@ int QSexact_verify (
             y_mpq = QScopy_array_dbl_mpq(y_dbl);
             
             /* test optimality of constructed solution */
-            basis = dbl_QSget_basis(p_dbl);
+            basis = dbl_basis = dbl_QSget_basis(p_dbl);
             rval = QSexact_optimal_test(p_mpq, x_mpq, y_mpq, basis);
             if( rval )
             {
@@ -1414,7 +1415,7 @@ int QSexact_verify (
             mpq_EGlpNumSet(y_mpq[i], dbl_d_sol[i]);
             
          /* test optimality of constructed solution */
-         basis = dbl_QSget_basis(p_dbl);
+         basis = dbl_basis = dbl_QSget_basis(p_dbl);
          rval = QSexact_optimal_test(p_mpq, x_mpq, y_mpq, basis);
          if( rval )
          {
@@ -1451,6 +1452,9 @@ int QSexact_verify (
             *result ? mpq_get_d(*dobjval) : mpq_get_d(*dobjval));
       }
    }
+
+   if( dbl_basis )
+      dbl_QSfree_basis(dbl_basis);
 
    return rval;
 }
@@ -1680,6 +1684,13 @@ int QSexact_solver (mpq_QSdata * p_mpq,
 				mpf_ILLlp_basis_free(p_mpf->basis);
 				p_mpf->lp->basisid = -1;
 				p_mpf->factorok = 0;
+			}
+			/* a basis kept from the previous level is not used: release it before the
+			 * next level stores its own */
+			if (basis)
+			{
+				mpq_QSfree_basis (basis);
+				basis = 0;
 			}
 			if (p_mpq->simplex_display || DEBUG >= __QS_SB_VERB)
 			{
